@@ -304,4 +304,22 @@ PROPS = {
             "an execution error renders nothing; error texts are not template output",
         ],
     },
+    "C01": {
+        "journal": True,
+        "confirm_tries": 2,
+        "quick": [
+            {"test": "TestC01Total", "checks": 48000, "shards": 8},
+            {"test": "TestC01Seeds", "kind": "enum"},
+        ],
+        "thorough": [
+            {"test": "TestC01Total", "checks": 4800000, "shards": 16, "timeout": 7200},
+            {"test": "TestC01Seeds", "kind": "enum"},
+        ],
+        "fuzz": [{"fuzz": "FuzzC01", "fuzztime": "120s", "timeout": 1800}],
+        "assumptions": [
+            "generator size bounds keep legitimate work small (loops <= 6 items, nesting <= 4, lorem <= 1000 paragraphs, numbers in the lexeme vocabulary <= 10^5 except two overflow probes), so the 30 s hang bound is never a verdict on slow but finite work; a case that exceeds it is re-run alone before it is reported",
+            "the helper files served by the loader form an acyclic graph; a generated template that makes a file include / extend itself is not produced on purpose (token mutations could in principle create one)",
+            "functions and methods supplied in the context are total (also on nil receivers) and side-effect free; a panic inside them would be a harness bug",
+        ],
+    },
 }
